@@ -208,12 +208,6 @@ class Item:
         return self.tgt
 
 
-def view_suffix(root, tgt_kind):
-    if tgt_kind == "BV":
-        return "" if True else ""
-    return ".unsigned" if tgt_kind == "U" else ".signed"
-
-
 def emit_item(it: Item, D):
     """append the declarations / statements of one item to the design sections D"""
     k, form, qual, src, tgt, S = it.k, it.form, it.qual, it.src, it.tgt, it.src_expr
@@ -254,8 +248,6 @@ def emit_item(it: Item, D):
     elif form == "slice":
         outport()
         n = tgt[1]
-        view = {"BV": ".bitvector" if it.root != "BV" else "", "U": ".unsigned" if it.root != "U" else "",
-                "S": ".signed" if it.root != "S" else ""}[tgt[0]]
         # a slice of any vector is a BitVector; typed targets are reached through a view of the slice
         view = {"BV": "", "U": ".unsigned", "S": ".signed"}[tgt[0]]
         body.append(f"            {q}[{n}:1]{view} <<= {S}")
@@ -683,13 +675,6 @@ def cell_from_json(j):
     return {"form": j["form"], "qual": j["qual"], "src": tuple(j["src"]), "tgt": tuple(j["tgt"]), "root": j["root"]}
 
 
-def first_line_with(vhdl, needle):
-    for l in vhdl.split("\n"):
-        if needle in l and "<=" in l or needle in l and ":=" in l or needle in l and "=>" in l:
-            return l.strip()
-    return ""
-
-
 def pdiag(cases):
     """breadth-first verdict per case, in parallel: ('same' | 'cex' | 'fuel' | 'error', info)"""
     import re
@@ -905,11 +890,11 @@ def run(ck: common.Check, replay=None):
     for k, idxs in sorted(undocumented.items()):
         i = idxs[0]
         c = cells[i]
-        stmt = ""
-        for l in res[i]["vhdl"].split("\n"):
-            if ("buffer_q0" in l or "q0" in l or "i =>" in l or "o =>" in l) and ("<=" in l or ":=" in l or "=>" in l) and "q0 <= buffer_q0" not in l:
-                stmt = l.strip()
-                break
+        import re as _re
+        stmts = [l.strip() for l in res[i]["vhdl"].split("\n")
+                 if _re.search(r"(<=|:=|=>)", l) and "q0 <= buffer_q0" not in l and not l.strip().startswith("--")
+                 and (_re.search(r"(<=|:=|=>).*\ba\b", l) or not is_runtime(c["src"]) and "q0" in l)]
+        stmt = " | ".join(stmts[:4])
         w = witness.get(k) or {"status": wmap.get("!" + k, "no witness design")}
         ck.violation(viol_key(c), "conversion accepted although the statement demands a compile-time error (%d cells of this class)" % len(idxs),
                      {"cell": cell_json(c), "source": designs[i]["source"], "emitted": stmt, "witness": w,
